@@ -1,6 +1,6 @@
 pub use crate::oracle::*;
 pub use crate::spec;
-pub use crate::{do_block, do_block_b2b, do_block_inout, do_blocks, do_blocks_b2b, do_blocks_inout, do_oneshot, do_oneshot_b2b};
+pub use crate::{split_on, do_block, do_block_b2b, do_block_inout, do_blocks, do_blocks_b2b, do_blocks_inout, do_oneshot, do_oneshot_b2b};
 pub use cipher::{
     array::Array, consts::*, crypto_common::InnerInit, AsyncStreamCipher, BlockModeDecrypt,
     BlockModeEncrypt, InnerIvInit, IvState, KeyInit, KeyIvInit, SeekNum, StreamCipher,
@@ -48,4 +48,24 @@ macro_rules! do_oneshot {
 macro_rules! do_oneshot_b2b {
     (enc, $m:expr, $i:expr, $o:expr) => { $m.encrypt_b2b($i, $o) };
     (dec, $m:expr, $i:expr, $o:expr) => { $m.decrypt_b2b($i, $o) };
+}
+
+/// Case split on the concrete value of a symbolic size: `split_on!(len, LO, HI, l => { ... })`
+/// runs the body once per value l in [LO, HI] under the guard `len == l`.  The claim is unchanged
+/// (the branches are exhaustive and mutually exclusive under `LO <= len <= HI`), but inside each
+/// branch every loop bound is concrete, and the oracle's call counter is rewound to its value
+/// before the split so that it stays concrete too.  Nothing after the split may call the oracle.
+#[macro_export]
+macro_rules! split_on {
+    ($v:expr, $lo:expr, $hi:expr, $l:ident => $body:block) => {{
+        let (n0__, nd0__) = ($crate::oracle::calls(), $crate::oracle::dec_calls());
+        let mut $l: usize = $lo;
+        while $l <= $hi {
+            if $v == $l {
+                $crate::oracle::set_calls(n0__, nd0__);
+                $body
+            }
+            $l += 1;
+        }
+    }};
 }
